@@ -53,6 +53,8 @@ def yflow(v):
 def step_mapping(st):
     """a step written as a mapping -> [[key, pv]...] in the order the block form writes them."""
     d = [['name', BODIES[st['body']][0]]]
+    if st.get('description') is not None:
+        d.append(['description', st['description']])
     if st.get('in') is not None:
         d.append(['in', {'d': st['in']}])
     if 'foreach' in st:
@@ -117,6 +119,8 @@ def emit_pipeline(groups, flow=False):
                 continue
             pos[(gname, idx)] = (len(lines) + 1, 5)
             lines.append(f'  - name: {modname}')
+            if st.get('description') is not None:
+                lines.append('    description: ' + yflow(st['description']))
             if st.get('in') is not None:
                 lines.append('    in: ' + yflow({'d': st['in']}))
             if 'foreach' in st:
@@ -141,7 +145,7 @@ def coq_step(st, position):
     name, ctor = BODIES[st['body']]
     if st.get('simple'):
         return (f'(mkstep {pv.coq_str(name)} {ctor} None None None None (VBool true) (VBool false) '
-                f'(VBool false) None None)')
+                f'(VBool false) None None None)')
     s_in = 'None' if st.get('in') is None else f'(Some {pv.coq_dict(st["in"])})'
     fe = f'(Some {pv.coq_val(st["foreach"])})' if 'foreach' in st else 'None'
     w = st.get('while')
@@ -162,8 +166,9 @@ def coq_step(st, position):
     swallow = pv.coq_val(st.get('swallow', False))
     oe = f'(Some {pv.coq_val(st["onError"])})' if 'onError' in st else 'None'
     line, col = position
+    desc = f'(Some {pv.coq_val(st["description"])})' if st.get('description') is not None else 'None'
     return (f'(mkstep {pv.coq_str(name)} {ctor} {s_in} {fe} {wc} {rc} {run} {skip} {swallow} {oe} '
-            f'(Some ({line}%Z, {col}%Z)))')
+            f'(Some ({line}%Z, {col}%Z)) {desc})')
 
 
 def coq_opt_key(d, k):
